@@ -636,6 +636,7 @@ func CheckPROSum(g *GlobalVarsMain, numberOfStages int) bool {
 			}
 			errorStr := fmt.Sprintf("%s Error in crop %s parameters: PRO sum in stage %d is not equal to 1", g.LOGID, g.CropTypeToString(g.FRUCHT[g.AKF.Index], false), stageIdx+1)
 			if g.DEBUGCHANNEL != nil {
+				verifYield("send.debug", g.LOGID, "")
 				g.DEBUGCHANNEL <- errorStr
 			} else {
 				log.Print(errorStr)
